@@ -48,8 +48,9 @@ def invalid_objects(t: pydsdl.CompositeType) -> typing.List[typing.Tuple[str, ty
     out: typing.List[typing.Tuple[str, typing.List[str]]] = []
     base = space.values_of(top, False)[0]
     if isinstance(top, pydsdl.UnionType):
-        out.append(("tag_n", [str(len(top.fields))]))
-        if len(top.fields) <= 255:
+        if len(top.fields) < 2 ** top.tag_field_type.bit_length:  # else: every tag value the storage can hold is valid
+            out.append(("tag_n", [str(len(top.fields))]))
+        if len(top.fields) < 255:
             out.append(("tag_255", ["255"]))
         return out
     for f in top.fields:
@@ -126,7 +127,7 @@ def _work(job: tuple) -> dict:
                         meta.append(("Sinvalid", d, label))
                 # -- histories on ONE destination object (explicit enumeration of all op sequences up to the depth)
                 ops = [E.hexs(a) for a in alpha] + (["@s", "@c", "@a", "@m"] if cpp else ["@s"])
-                priors = (0,) if cpp else (0, 1, 2)
+                priors = (0, 1, 2)  # C: memset 0 / 0xAA / 0x55; C++: value-initialised / default-initialised in 0xAA / 0x55 storage
                 for n in range(2, depth + 1):
                     for seq in itertools.product(range(len(ops)), repeat=n):
                         if not any(ops[i][0] != "@" for i in seq[1:]) and n > 1 and all(ops[i][0] == "@" for i in seq):
@@ -213,7 +214,7 @@ OVR_ELEMS = [("u8", "uint8"), ("u16", "uint16"), ("i13", "int13"), ("f32", "floa
 def override_defs() -> typing.List[space.TypeDef]:
     out = [space.TypeDef("Ifs", "L3i", "uint8 a\nint13 b\n@sealed\n", True)]
     for et, ee in OVR_ELEMS:
-        for cap in (3, 9):
+        for cap in (3, 9) + ((200, 255) if et == "u8" else ()):  # 255: every value of the 8-bit length prefix is <= the DSDL capacity
             deps = ("Ifs",) if ee.startswith("NS.") else ()
             out.append(space.TypeDef(f"OV{et}c{cap}", "L2o", f"uint8 head\n{ee}[<={cap}] x\n@sealed\n", True, deps))
     return out
